@@ -36,6 +36,12 @@ pub fn execute(plan: &Plan, trace: bool) -> Outcome {
             let worker_dead = with_core(|c| c.panics.iter().any(|p| p.class == core::Class::Worker));
             worker_dead || tasks.iter().filter(|t| !t.1).all(|t| core::task_done(t.0))
         });
+        // let daemons finish the call they are in (cancelling an in-flight take would lose its samples)
+        if stop == Stop::Cond {
+            world.stop_daemons.set(true);
+            let _ = core::run(plan.max_steps, max_now, || tasks.iter().all(|t| core::task_done(t.0)) || with_core(|c| c.panics.iter().any(|p| p.class == core::Class::Worker)));
+            world.stop_daemons.set(false);
+        }
         for (id, _) in &tasks {
             if !core::task_done(*id) {
                 core::cancel_task(*id);
